@@ -357,4 +357,809 @@ theorem splitChar_app {sep : Char} {a : Str} (b : Str) (h : sep ∉ a) :
     have ha : sep ∉ a := fun e => h (by simp [e])
     simp [splitChar, hc, ih ha]
 
+theorem dropWhile_head {p : Char → Bool} {l : Str} {c : Char} {r : Str}
+    (h : l.dropWhile p = c :: r) : p c = false := by
+  induction l with
+  | nil => simp at h
+  | cons a l ih =>
+    by_cases ha : p a = true
+    · rw [List.dropWhile_cons_of_pos ha] at h; exact ih h
+    · rw [List.dropWhile_cons_of_neg ha] at h
+      injection h with h1 _; subst h1; simpa using ha
+
+theorem mem_takeWhile {p : Char → Bool} {l : Str} {c : Char} (h : c ∈ l.takeWhile p) : p c = true := by
+  induction l with
+  | nil => simp at h
+  | cons a l ih =>
+    by_cases ha : p a = true
+    · rw [List.takeWhile_cons_of_pos ha] at h
+      rcases List.mem_cons.mp h with h | h
+      · subst h; exact ha
+      · exact ih h
+    · rw [List.takeWhile_cons_of_neg ha] at h; simp at h
+
+/-- **numeral_parses** (with the token shape): whatever L0 `numeralValue` reads as a coordinate numeral is
+one COORD token and `parse_humanized` returns exactly the denoted integer -/
+theorem numeral_shape {A : Str} {a : Nat} (h : numeralValue A = some a) :
+    ∃ X Y Z, A = coordText X Y Z ∧ IsCoord X Y Z ∧ parseHumanized A = .ok a := by
+  cases A with
+  | nil => simp [numeralValue] at h
+  | cons c0 t =>
+    have hd : isDigit c0 = true := by
+      cases hd : isDigit c0 with
+      | true => rfl
+      | false => simp [numeralValue, hd] at h
+    unfold numeralValue at h
+    simp only [hd, Bool.not_true, Bool.false_eq_true, if_false] at h
+    generalize hX : (c0 :: t).takeWhile isDigitComma = X at h
+    generalize hR : (c0 :: t).dropWhile isDigitComma = R at h
+    have hA : c0 :: t = X ++ R := by
+      rw [← hX, ← hR]; exact (List.takeWhile_append_dropWhile).symm
+    have hXm : ∀ c ∈ X, isDigitComma c = true := by
+      intro c hc; rw [← hX] at hc; exact mem_takeWhile hc
+    have hc0X : c0 ∈ X := by rw [← hX]; simp [isDigitComma, hd]
+    have hXne : X ≠ [] := List.ne_nil_of_mem hc0X
+    have hI : ∀ c ∈ X.filter (· != ','), isDigit c = true := by
+      intro c hc
+      obtain ⟨h1, h2⟩ := List.mem_filter.mp hc
+      have := hXm c h1
+      simp [isDigitComma] at this h2
+      rcases this with h | h
+      · simpa [isDigit] using h
+      · exact absurd h h2
+    have hIne : X.filter (· != ',') ≠ [] :=
+      List.ne_nil_of_mem (List.mem_filter.mpr ⟨hc0X, digit_ne_comma hd⟩)
+    rw [hA]
+    cases R with
+    | nil =>
+      simp only [Option.some.injEq] at h
+      refine ⟨X, none, [], by simp [coordText], ⟨hXne, hXm, by simp, by simp⟩, ?_⟩
+      rw [← h]
+      exact humanized_plain _ _ (by simp) hIne hI
+    | cons c r =>
+      have hcs : isDigitComma c = false := dropWhile_head hR
+      by_cases hdot : c = '.'
+      · subst hdot
+        simp only [if_true] at h
+        generalize hF : r.takeWhile isDigit = F at h
+        generalize hU : r.dropWhile isDigit = U at h
+        have hr : r = F ++ U := by rw [← hF, ← hU]; exact (List.takeWhile_append_dropWhile).symm
+        have hFm : ∀ c ∈ F, isDigit c = true := by
+          intro c hc; rw [← hF] at hc; exact mem_takeWhile hc
+        cases hu : unitExp (U.map upper) with
+        | none => simp [hu] at h
+        | some u =>
+          simp only [hu] at h
+          have hlen : F.length ≤ u := by
+            by_cases hlen : F.length ≤ u
+            · exact hlen
+            · simp [hlen] at h
+          simp only [hlen, if_true, Option.some.injEq] at h
+          obtain ⟨_, hUl⟩ := unit_letters hu
+          refine ⟨X, some F, U, by simp [coordText, hr], ⟨hXne, hXm, ?_, hUl⟩, ?_⟩
+          · intro F' hF'; injection hF' with hF'; subst hF'; exact hFm
+          · rw [← h]
+            apply humanized_exact _ _ F U u _ hI hFm (Or.inl hIne) hu hlen
+            rw [hr]
+            simp only [List.filter_append, List.filter_cons, List.append_assoc]
+            have h1 : F.filter (· != ',') = F := filter_id (fun c hc => digit_ne_comma (hFm c hc))
+            have h2 : U.filter (· != ',') = U := filter_id (fun c hc => letter_ne_comma (hUl c hc))
+            simp [h1, h2]
+      · simp only [hdot, if_false] at h
+        split at h
+        · rename_i u hu'
+          simp only [Option.some.injEq] at h
+          have hu : unitExp ((c :: r).map upper) = some u := hu'
+          obtain ⟨_, hUl⟩ := unit_letters hu
+          refine ⟨X, none, c :: r, by simp [coordText], ⟨hXne, hXm, by simp, hUl⟩, ?_⟩
+          rw [← h]
+          apply humanized_exact_nodot _ _ (c :: r) u _ hI hIne hu
+          rw [List.filter_append, filter_id (fun c hc => letter_ne_comma (hUl c hc))]
+        · simp at h
+
+theorem numeral_parses {A : Str} {a : Nat} (h : numeralValue A = some a) : parseHumanized A = .ok a := by
+  obtain ⟨_, _, _, _, _, h⟩ := numeral_shape h; exact h
+
+/-! ## parse_region_string on well-formed input -/
+
+/-- a chromosome name `parse_region_string` hands back unchanged: non-empty, free of `:`, no blanks
+at either end (Python returns `parts[0].strip()`) -/
+structure GoodName (c : Str) : Prop where
+  ne : c ≠ []
+  nocolon : ':' ∉ c
+  stripped : strip c = c
+
+theorem coordText_pos {X : Str} {Y : Option Str} {Z : Str} (h : IsCoord X Y Z) :
+    0 < (coordText X Y Z).length := by
+  have := List.length_pos_iff.mpr h.ne
+  simp [coordText]; omega
+
+theorem coordText_chars {X : Str} {Y : Option Str} {Z : Str} (h : IsCoord X Y Z) :
+    ∀ c ∈ coordText X Y Z, c ≠ ':' ∧ c ≠ '-' := by
+  intro c hc
+  have hdc : ∀ c, isDigitComma c = true → c ≠ ':' ∧ c ≠ '-' := fun c h => ⟨(digitComma_facts h).2.2, (digitComma_facts h).2.1⟩
+  have hd : ∀ c, isDigit c = true → c ≠ ':' ∧ c ≠ '-' := fun c h => hdc c (by simp [isDigitComma, h])
+  have hl : ∀ c, isLetter c = true → c ≠ ':' ∧ c ≠ '-' := by
+    intro c h; simp [isLetter, char_eq_iff] at *; omega
+  simp only [coordText, List.mem_append] at hc
+  rcases hc with (hc | hc) | hc
+  · exact hdc c (h.x c hc)
+  · cases Y with
+    | none => simp at hc
+    | some F =>
+      rcases List.mem_cons.mp hc with hc | hc
+      · subst hc; decide
+      · exact hd c (h.y F rfl c hc)
+  · exact hl c (h.z c hc)
+
+theorem tokenize_closed {X Y Z X' Y' Z'} (hA : IsCoord X Y Z) (hB : IsCoord X' Y' Z') :
+    tokenize (coordText X Y Z ++ '-' :: coordText X' Y' Z')
+      = [⟨.coord, coordText X Y Z⟩, ⟨.hyphen, ['-']⟩, ⟨.coord, coordText X' Y' Z'⟩] := by
+  have h1 := coordText_pos hA
+  have h2 := coordText_pos hB
+  unfold tokenize
+  rw [tokFuel_step (by simp; omega) (nextToken_coord hA (stops_hyphen _))]
+  rw [tokFuel_step (by simp; omega) (nextToken_hyphen _)]
+  have h3 : nextToken (coordText X' Y' Z') = some (⟨.coord, coordText X' Y' Z'⟩, []) := by
+    simpa using nextToken_coord hB stops_nil
+  rw [tokFuel_step (by simp; omega) h3, tokFuel_nil]
+
+theorem tokenize_open {X Y Z} (hA : IsCoord X Y Z) :
+    tokenize (coordText X Y Z ++ ['-']) = [⟨.coord, coordText X Y Z⟩, ⟨.hyphen, ['-']⟩] := by
+  have h1 := coordText_pos hA
+  unfold tokenize
+  rw [tokFuel_step (by simp) (nextToken_coord hA (stops_hyphen _))]
+  rw [tokFuel_step (by simp; omega) (nextToken_hyphen _), tokFuel_nil]
+
+theorem parse_with_body {c body : Str} (hc : GoodName c) (hb : ':' ∉ body) :
+    parseRegionString (c ++ ':' :: body) =
+      match expectToks (tokenize body) with
+      | .error _ => .error .value
+      | .ok (a, b) => .ok (c, some a, b) := by
+  unfold parseRegionString
+  rw [splitChar_app body hc.nocolon, splitChar_no_sep hb]
+  simp only [hc.stripped, hc.ne, if_false]
+  cases expectToks (tokenize body) with
+  | error e => rfl
+  | ok v => rfl
+
+/-- **region_denotes**: `name:A-B` with L0 numerals `A ≤ B` parses to the name and exactly the two
+denoted integers -/
+theorem region_denotes (c A B : Str) (a b : Nat) (hc : GoodName c)
+    (hA : numeralValue A = some a) (hB : numeralValue B = some b) (hab : a ≤ b) :
+    parseRegionString (c ++ ':' :: A ++ '-' :: B) = .ok (c, some a, some b) := by
+  obtain ⟨X, Y, Z, rfl, hAc, hAp⟩ := numeral_shape hA
+  obtain ⟨X', Y', Z', rfl, hBc, hBp⟩ := numeral_shape hB
+  have hb : ':' ∉ coordText X Y Z ++ '-' :: coordText X' Y' Z' := by
+    intro hm
+    rcases List.mem_append.mp hm with h | h
+    · exact (coordText_chars hAc _ h).1 rfl
+    · rcases List.mem_cons.mp h with h | h
+      · exact absurd h (by decide)
+      · exact (coordText_chars hBc _ h).1 rfl
+  have e : c ++ ':' :: coordText X Y Z ++ '-' :: coordText X' Y' Z'
+      = c ++ ':' :: (coordText X Y Z ++ '-' :: coordText X' Y' Z') := by simp
+  rw [e, parse_with_body hc hb, tokenize_closed hAc hBc]
+  have : ¬ b < a := by omega
+  simp [expectToks, hAp, hBp, this]
+
+/-- the open-ended form `name:A-` -/
+theorem region_denotes_open (c A : Str) (a : Nat) (hc : GoodName c) (hA : numeralValue A = some a) :
+    parseRegionString (c ++ ':' :: A ++ ['-']) = .ok (c, some a, none) := by
+  obtain ⟨X, Y, Z, rfl, hAc, hAp⟩ := numeral_shape hA
+  have hb : ':' ∉ coordText X Y Z ++ ['-'] := by
+    intro hm
+    rcases List.mem_append.mp hm with h | h
+    · exact (coordText_chars hAc _ h).1 rfl
+    · simp at h
+  have e : c ++ ':' :: coordText X Y Z ++ ['-'] = c ++ ':' :: (coordText X Y Z ++ ['-']) := by simp
+  rw [e, parse_with_body hc hb, tokenize_open hAc]
+  simp [expectToks, hAp]
+
+/-- **parse_name_only**: a bare name is the whole chromosome -/
+theorem parse_name_only (c : Str) (hc : GoodName c) : parseRegionString c = .ok (c, none, none) := by
+  unfold parseRegionString
+  rw [splitChar_no_sep hc.nocolon]
+  simp [hc.stripped, hc.ne]
+
+theorem numeralValue_digits {D : Str} (hne : D ≠ []) (hD : ∀ c ∈ D, isDigit c = true) :
+    numeralValue D = some (natOfDigits D) := by
+  have hdc : ∀ c ∈ D, isDigitComma c = true := fun c hc => by simp [isDigitComma, hD c hc]
+  have h1 : D.takeWhile isDigitComma = D := by simpa using takeWhile_app (b := []) hdc (by simp)
+  have h2 : D.dropWhile isDigitComma = [] := by simpa using dropWhile_app (b := []) hdc (by simp)
+  have h3 : D.filter (· != ',') = D := filter_id (fun c hc => digit_ne_comma (hD c hc))
+  obtain ⟨d, D', rfl⟩ := List.exists_cons_of_ne_nil hne
+  have hd := hD d (by simp)
+  unfold numeralValue
+  simp only [h1, h2, h3, hd]
+  simp
+
+theorem numeralValue_digitsOf (n : Nat) : numeralValue (digitsOf n) = some n := by
+  rw [numeralValue_digits (digitsOf_ne_nil n) (digitsOf_isDigit n), digits_roundtrip]
+
+/-- **parse_format_id**: formatting a region and parsing it back is the identity, for every name that is
+non-empty, contains no `:` and has no blank at either end (inner blanks, `-`, `.`, digits are all
+fine), and all `s ≤ e`. -/
+theorem parse_format_id (c : Str) (s e : Nat) (hc : GoodName c) (hse : s ≤ e) :
+    parseRegionString (formatRegion c s e) = .ok (c, some s, some e) :=
+  region_denotes c _ _ s e hc (numeralValue_digitsOf s) (numeralValue_digitsOf e) hse
+
+/-- the open-ended form parses back with no end -/
+theorem parse_format_open (c : Str) (s : Nat) (hc : GoodName c) :
+    parseRegionString (formatRegionOpen c s) = .ok (c, some s, none) :=
+  region_denotes_open c _ s hc (numeralValue_digitsOf s)
+
+/-- non-vacuity: a name with inner blank, hyphen, dot and digits satisfies `GoodName` -/
+example : GoodName ['c', 'h', 'r', ' ', '2', '-', 'b', '.', '1'] := ⟨by decide, by decide, by decide⟩
+
+example : parseRegionString (formatRegion ['1', '-', '2'] 5 1005) = .ok (['1', '-', '2'], some 5, some 1005) :=
+  parse_format_id _ _ _ ⟨by decide, by decide, by decide⟩ (by omega)
+
+/-- splitting a text at the first occurrence of `d` -/
+theorem sep_split (d : Char) (s : Str) :
+    d ∉ s.takeWhile (· != d) ∧
+    ((s.dropWhile (· != d) = [] ∧ s = s.takeWhile (· != d)) ∨
+     ∃ body, s.dropWhile (· != d) = d :: body ∧ s = s.takeWhile (· != d) ++ d :: body) := by
+  constructor
+  · intro hm
+    have := mem_takeWhile hm
+    simp at this
+  · have hs : s = s.takeWhile (· != d) ++ s.dropWhile (· != d) := (List.takeWhile_append_dropWhile).symm
+    cases hr : s.dropWhile (· != d) with
+    | nil => left; refine ⟨rfl, ?_⟩; rw [hr] at hs; simpa using hs
+    | cons c r =>
+      right
+      have := dropWhile_head hr
+      simp at this
+      subst this
+      exact ⟨r, rfl, by rw [hr] at hs; exact hs⟩
+
+theorem not_mem_of_any_false {d : Char} {l : Str} (h : l.any (· == d) = false) : d ∉ l := by
+  intro hm
+  have := List.any_eq_false.mp h d hm
+  simp at this
+
+/-- **strict_parses** (L1 = L0 on the well-formed domain): every string the L0 grammar `strictRegion`
+reads as a region is parsed by `parse_region_string` to exactly the triple it denotes. -/
+theorem strict_parses (s : Str) (v : Str × Option Nat × Option Nat) (h : strictRegion s = some v) :
+    parseRegionString s = .ok v := by
+  unfold strictRegion at h
+  obtain ⟨hnc, hsplit⟩ := sep_split ':' s
+  generalize hname : s.takeWhile (· != ':') = name at h hnc hsplit
+  by_cases hbad : name = [] ∨ strip name ≠ name
+  · simp [hbad] at h
+  simp only [hbad, if_false] at h
+  have hc : GoodName name := ⟨fun e => hbad (Or.inl e), hnc, by
+    cases hs : decide (strip name = name) with
+    | true => exact of_decide_eq_true hs
+    | false => exact absurd (Or.inr (of_decide_eq_false hs)) hbad⟩
+  rcases hsplit with ⟨hd, hs⟩ | ⟨body, hd, hs⟩
+  · simp only [hd, Option.some.injEq] at h
+    rw [hs, ← h]; exact parse_name_only name hc
+  · simp only [hd] at h
+    by_cases hany : body.any (· == ':') = true
+    · simp [hany] at h
+    simp only [hany, Bool.false_eq_true, if_false] at h
+    obtain ⟨hnh, hsplit2⟩ := sep_split '-' body
+    generalize hA : body.takeWhile (· != '-') = A at h hnh hsplit2
+    rcases hsplit2 with ⟨hd2, _⟩ | ⟨b, hd2, hs2⟩
+    · simp [hd2] at h
+    · simp only [hd2] at h
+      cases hx : numeralValue A with
+      | none => simp [hx] at h
+      | some x =>
+        simp only [hx] at h
+        by_cases hb : b = []
+        · subst hb
+          simp only [if_true, Option.some.injEq] at h
+          rw [hs, hs2, ← h]
+          have := region_denotes_open name A x hc hx
+          simpa using this
+        · simp only [hb, if_false] at h
+          cases hy : numeralValue b with
+          | none => simp [hy] at h
+          | some y =>
+            simp only [hy] at h
+            by_cases hxy : x ≤ y
+            · simp only [hxy, if_true, Option.some.injEq] at h
+              rw [hs, hs2, ← h]
+              have := region_denotes name A b x y hc hx hy hxy
+              simpa using this
+            · simp [hxy] at h
+
+/-! ## refusals -/
+
+theorem split_head (s : Str) : ∃ ps, splitChar ':' s = s.takeWhile (· != ':') :: ps := by
+  obtain ⟨hnc, h | ⟨body, _, h⟩⟩ := sep_split ':' s
+  · refine ⟨[], ?_⟩
+    have h3 := splitChar_no_sep hnc
+    rw [← h.2] at h3
+    rw [h3, ← h.2]
+  · refine ⟨splitChar ':' body, ?_⟩
+    have := splitChar_app body hnc
+    rw [← h] at this; exact this
+
+/-- an empty (or all-blank) name is refused -/
+theorem refuses_empty_name (s : Str) (h : strip (s.takeWhile (· != ':')) = []) :
+    parseRegionString s = .error .value := by
+  obtain ⟨ps, hps⟩ := split_head s
+  unfold parseRegionString
+  simp [hps, h]
+
+theorem parse_error_of_expect {c body : Str} (hc : ':' ∉ c) (hb : ':' ∉ body)
+    (h : expectToks (tokenize body) = .error .value) :
+    parseRegionString (c ++ ':' :: body) = .error .value := by
+  unfold parseRegionString
+  rw [splitChar_app body hc, splitChar_no_sep hb]
+  by_cases hs : strip c = []
+  · simp [hs]
+  · simp [hs, h]
+
+theorem tokenize_first {l r : Str} {t : Tok} (h : nextToken l = some (t, r)) :
+    ∃ rest, tokenize l = t :: rest := by
+  cases l with
+  | nil => simp [nextToken] at h
+  | cons c l => exact ⟨_, tokFuel_step (by simp) h⟩
+
+/-- a coordinate part whose first non-blank character is neither a digit nor a comma (a hyphen: a
+negative start; a letter, a dot, …: non-numeric) is refused -/
+theorem refuses_bad_start (ws rest : Str) (c : Char) (hws : ∀ x ∈ ws, isSpace x = true)
+    (hsp : isSpace c = false) (hdc : isDigitComma c = false) :
+    expectToks (tokenize (ws ++ c :: rest)) = .error .value := by
+  have hb : ∀ x ∈ (c :: rest).head?, isSpace x = false := by
+    intro x hx; simp at hx; subst hx; exact hsp
+  have : ∃ t r, nextToken (ws ++ c :: rest) = some (t, r) ∧ t.typ ≠ .coord := by
+    unfold nextToken
+    rw [dropWhile_app hws hb]
+    by_cases hh : c = '-'
+    · exact ⟨⟨.hyphen, ['-']⟩, rest, by simp [hh], by simp⟩
+    · exact ⟨⟨.other, (c :: rest).takeWhile (fun x => !isNewline x)⟩,
+        (c :: rest).dropWhile (fun x => !isNewline x), by simp [hh, hdc], by simp⟩
+  obtain ⟨t, r, hn, ht⟩ := this
+  obtain ⟨rest', hr⟩ := tokenize_first hn
+  rw [hr]
+  simp [expectToks, ht]
+
+/-- a COORD token that `parse_humanized` rejects (unknown unit, fraction without unit, …) as start -/
+theorem refuses_bad_first_numeral {X Y Z} (rest : Str) (hA : IsCoord X Y Z)
+    (hp : parseHumanized (coordText X Y Z) = .error .value) :
+    expectToks (tokenize (coordText X Y Z ++ '-' :: rest)) = .error .value := by
+  obtain ⟨r, hr⟩ := tokenize_first (nextToken_coord hA (stops_hyphen rest))
+  rw [hr]
+  simp [expectToks, hp]
+
+theorem tokenize_two {X Y Z} (rest : Str) (hA : IsCoord X Y Z) :
+    tokenize (coordText X Y Z ++ '-' :: rest)
+      = ⟨.coord, coordText X Y Z⟩ :: ⟨.hyphen, ['-']⟩ :: tokFuel (coordText X Y Z ++ '-' :: rest).length.pred.pred rest := by
+  have h1 := coordText_pos hA
+  unfold tokenize
+  rw [tokFuel_step (by simp only [List.length_append, List.length_cons]; omega) (nextToken_coord hA (stops_hyphen _))]
+  rw [tokFuel_step (by simp only [List.length_append, List.length_cons]; omega) (nextToken_hyphen _)]
+  rfl
+
+/-- after a good start and the hyphen: an end that does not begin (after blanks) with a digit or comma
+(a second hyphen: negative end; letters …: non-numeric) is refused -/
+theorem refuses_bad_end (A ws rest : Str) (a : Nat) (c : Char) (hA : numeralValue A = some a)
+    (hws : ∀ x ∈ ws, isSpace x = true) (hsp : isSpace c = false) (hdc : isDigitComma c = false) :
+    expectToks (tokenize (A ++ '-' :: (ws ++ c :: rest))) = .error .value := by
+  obtain ⟨X, Y, Z, rfl, hAc, hAp⟩ := numeral_shape hA
+  rw [tokenize_two _ hAc]
+  have hb : ∀ x ∈ (c :: rest).head?, isSpace x = false := by
+    intro x hx; simp at hx; subst hx; exact hsp
+  have : ∃ t r, nextToken (ws ++ c :: rest) = some (t, r) ∧ t.typ ≠ .coord := by
+    unfold nextToken
+    rw [dropWhile_app hws hb]
+    by_cases hh : c = '-'
+    · exact ⟨⟨.hyphen, ['-']⟩, rest, by simp [hh], by simp⟩
+    · exact ⟨⟨.other, (c :: rest).takeWhile (fun x => !isNewline x)⟩,
+        (c :: rest).dropWhile (fun x => !isNewline x), by simp [hh, hdc], by simp⟩
+  obtain ⟨t, r, hn, ht⟩ := this
+  have hpos : 0 < (coordText X Y Z ++ '-' :: (ws ++ c :: rest)).length.pred.pred := by
+    have := coordText_pos hAc
+    simp; omega
+  rw [tokFuel_step hpos hn]
+  simp [expectToks, hAp, ht]
+
+/-- a COORD token that `parse_humanized` rejects as end -/
+theorem refuses_bad_second_numeral {X Y Z} (A rest : Str) (a : Nat) (hA : numeralValue A = some a)
+    (hB : IsCoord X Y Z) (hr : Stops rest) (hp : parseHumanized (coordText X Y Z) = .error .value) :
+    expectToks (tokenize (A ++ '-' :: (coordText X Y Z ++ rest))) = .error .value := by
+  obtain ⟨X', Y', Z', rfl, hAc, hAp⟩ := numeral_shape hA
+  rw [tokenize_two _ hAc]
+  have hpos : 0 < (coordText X' Y' Z' ++ '-' :: (coordText X Y Z ++ rest)).length.pred.pred := by
+    have := coordText_pos hAc
+    have := coordText_pos hB
+    simp; omega
+  rw [tokFuel_step hpos (nextToken_coord hB hr)]
+  simp [expectToks, hAp, hp]
+
+/-- reversed coordinates are refused -/
+theorem refuses_reversed (A B : Str) (a b : Nat) (hA : numeralValue A = some a)
+    (hB : numeralValue B = some b) (hba : b < a) :
+    expectToks (tokenize (A ++ '-' :: B)) = .error .value := by
+  obtain ⟨X, Y, Z, rfl, hAc, hAp⟩ := numeral_shape hA
+  obtain ⟨X', Y', Z', rfl, hBc, hBp⟩ := numeral_shape hB
+  rw [tokenize_closed hAc hBc]
+  simp [expectToks, hAp, hBp, hba]
+
+/-- digits (and an optional fraction) followed by letters that are not a unit: refused by
+`parse_humanized` -/
+theorem humanized_unknown_unit (s V U : Str) (hs : s.filter (· != ',') = V ++ U) (hV : V ≠ [])
+    (hVn : ∀ c ∈ V, isNumeric c = true) (hUn : ∀ c ∈ U, isNumeric c = false) (hU : U ≠ [])
+    (hu : unitExp (strip (U.map upper)) = none) : parseHumanized s = .error .value := by
+  rw [humanized_shape s V U hs hV hVn hUn]
+  simp only [hU, if_false, hu]
+  cases pyDecimal V <;> rfl
+
+/-- a fraction without a unit is refused (`int("1.5")`) -/
+theorem humanized_fraction_without_unit (s I F : Str) (hs : s.filter (· != ',') = I ++ '.' :: F)
+    (hI : ∀ c ∈ I, isDigit c = true) (hF : ∀ c ∈ F, isDigit c = true) :
+    parseHumanized s = .error .value := by
+  have hV : ∀ c ∈ I ++ '.' :: F, isNumeric c = true := by
+    intro c hc
+    rcases List.mem_append.mp hc with h | h
+    · exact digit_numeric (hI c h)
+    · rcases List.mem_cons.mp h with h | h
+      · subst h; decide
+      · exact digit_numeric (hF c h)
+  rw [humanized_shape s (I ++ '.' :: F) [] (by simpa using hs) (by simp) hV (by simp)]
+  have : (I ++ '.' :: F).all isDigit = false := by
+    rw [List.all_eq_false]; exact ⟨'.', by simp, by decide⟩
+  simp [pyInt, this]
+
+/-! ### no hyphen in the coordinate part -/
+
+theorem scanCoord_snd_subset (l : Str) : ∀ c ∈ (scanCoord l).2, c ∈ l := by
+  intro c hc
+  simp only [scanCoord] at hc
+  split at hc
+  · rename_i r heq
+    have h1 : c ∈ r := (List.dropWhile_sublist _).subset ((List.dropWhile_sublist _).subset hc)
+    have h2 : c ∈ l.dropWhile isDigitComma := by rw [heq]; exact List.mem_cons_of_mem _ h1
+    exact (List.dropWhile_sublist _).subset h2
+  · exact (List.dropWhile_sublist _).subset ((List.dropWhile_sublist _).subset hc)
+
+theorem nextToken_facts {l r : Str} {t : Tok} (h : nextToken l = some (t, r)) :
+    (t.typ = .hyphen → '-' ∈ l) ∧ ∀ c ∈ r, c ∈ l := by
+  unfold nextToken at h
+  split at h
+  · split at h
+    · simp at h
+    · simp only [Option.some.injEq, Prod.mk.injEq] at h
+      obtain ⟨rfl, rfl⟩ := h
+      refine ⟨by simp, ?_⟩
+      intro c hc
+      have := (List.takeWhile_sublist _).subset (List.mem_reverse.mp hc)
+      exact List.mem_reverse.mp this
+  · rename_i c r' heq
+    have hsub : ∀ x ∈ c :: r', x ∈ l := by
+      intro x hx; rw [← heq] at hx; exact (List.dropWhile_sublist _).subset hx
+    split at h
+    · rename_i hc
+      simp only [Option.some.injEq, Prod.mk.injEq] at h
+      obtain ⟨rfl, rfl⟩ := h
+      exact ⟨fun _ => by subst hc; exact hsub _ (by simp), fun x hx => hsub x (List.mem_cons_of_mem _ hx)⟩
+    · split at h
+      · simp only [Option.some.injEq, Prod.mk.injEq] at h
+        obtain ⟨rfl, rfl⟩ := h
+        exact ⟨by simp, fun x hx => hsub x (scanCoord_snd_subset _ x hx)⟩
+      · simp only [Option.some.injEq, Prod.mk.injEq] at h
+        obtain ⟨rfl, rfl⟩ := h
+        exact ⟨by simp, fun x hx => hsub x ((List.dropWhile_sublist _).subset hx)⟩
+
+theorem tokFuel_no_hyphen : ∀ (f : Nat) (l : Str), '-' ∉ l → ∀ t ∈ tokFuel f l, t.typ ≠ .hyphen := by
+  intro f
+  induction f with
+  | zero => intro l _ t ht; simp [tokFuel] at ht
+  | succ f ih =>
+    intro l hl t ht
+    unfold tokFuel at ht
+    split at ht
+    · simp at ht
+    · rename_i t' r heq
+      obtain ⟨h1, h2⟩ := nextToken_facts heq
+      rcases List.mem_cons.mp ht with h | h
+      · subst h; exact fun e => hl (h1 e)
+      · exact ih r (fun hm => hl (h2 _ hm)) t h
+
+/-- a coordinate part without any hyphen is refused, whatever else it contains -/
+theorem refuses_missing_hyphen (body : Str) (h : '-' ∉ body) :
+    expectToks (tokenize body) = .error .value := by
+  have hn := tokFuel_no_hyphen body.length body h
+  unfold tokenize
+  generalize tokFuel body.length body = toks at hn
+  match toks, hn with
+  | [], _ => rfl
+  | [t1], _ =>
+    by_cases h1 : t1.typ = .coord
+    · cases hp : parseHumanized t1.text <;> simp [expectToks, h1, hp]
+    · simp [expectToks, h1]
+  | t1 :: t2 :: rest, hn =>
+    have h2 := hn t2 (by simp)
+    by_cases h1 : t1.typ = .coord
+    · cases hp : parseHumanized t1.text <;> simp [expectToks, h1, hp, h2]
+    · simp [expectToks, h1]
+
+theorem not_colon_of_numeral {A : Str} {a : Nat} (h : numeralValue A = some a) : ':' ∉ A ∧ '-' ∉ A := by
+  obtain ⟨X, Y, Z, rfl, hc, _⟩ := numeral_shape h
+  exact ⟨fun hm => (coordText_chars hc _ hm).1 rfl, fun hm => (coordText_chars hc _ hm).2 rfl⟩
+
+/-- digits followed by letters that are not a unit form a COORD token that `parse_humanized` rejects -/
+theorem unknown_unit_token (I U : Str) (hI : ∀ c ∈ I, isDigit c = true) (hIne : I ≠ [])
+    (hU : ∀ c ∈ U, isLetter c = true) (hUne : U ≠ []) (hu : unitExp (strip (U.map upper)) = none) :
+    IsCoord I none U ∧ parseHumanized (coordText I none U) = .error .value := by
+  refine ⟨⟨hIne, fun c hc => by simp [isDigitComma, hI c hc], by simp, hU⟩, ?_⟩
+  apply humanized_unknown_unit _ I U _ hIne (fun c hc => digit_numeric (hI c hc))
+    (fun c hc => letter_not_numeric (hU c hc)) hUne hu
+  simp only [coordText, List.append_nil, List.filter_append]
+  rw [filter_id (fun c hc => digit_ne_comma (hI c hc)), filter_id (fun c hc => letter_ne_comma (hU c hc))]
+
+/-- **region_refuses**: each malformed class the property lists is refused.
+1. empty or blank name; 2. no hyphen after the colon; 3. the coordinate part starts (after blanks)
+with something that is not a digit — a hyphen (negative start) or any other text (non-numeric);
+4. the same for the end; 5. reversed coordinates; 6./7. an unknown unit on the start / on the end. -/
+theorem region_refuses :
+    (∀ s : Str, strip (s.takeWhile (· != ':')) = [] → parseRegionString s = .error .value) ∧
+    (∀ c body : Str, ':' ∉ c → ':' ∉ body → '-' ∉ body →
+      parseRegionString (c ++ ':' :: body) = .error .value) ∧
+    (∀ (c ws rest : Str) (ch : Char), ':' ∉ c → ':' ∉ ws ++ ch :: rest → (∀ x ∈ ws, isSpace x = true) →
+      isSpace ch = false → isDigitComma ch = false →
+      parseRegionString (c ++ ':' :: (ws ++ ch :: rest)) = .error .value) ∧
+    (∀ (c A ws rest : Str) (a : Nat) (ch : Char), ':' ∉ c → ':' ∉ ws ++ ch :: rest →
+      numeralValue A = some a → (∀ x ∈ ws, isSpace x = true) → isSpace ch = false → isDigitComma ch = false →
+      parseRegionString (c ++ ':' :: (A ++ '-' :: (ws ++ ch :: rest))) = .error .value) ∧
+    (∀ (c A B : Str) (a b : Nat), ':' ∉ c → numeralValue A = some a → numeralValue B = some b → b < a →
+      parseRegionString (c ++ ':' :: (A ++ '-' :: B)) = .error .value) ∧
+    (∀ (c I U rest : Str), ':' ∉ c → ':' ∉ rest → (∀ x ∈ I, isDigit x = true) → I ≠ [] →
+      (∀ x ∈ U, isLetter x = true) → U ≠ [] → unitExp (strip (U.map upper)) = none →
+      parseRegionString (c ++ ':' :: (I ++ U ++ '-' :: rest)) = .error .value) ∧
+    (∀ (c A I U : Str) (a : Nat), ':' ∉ c → numeralValue A = some a → (∀ x ∈ I, isDigit x = true) → I ≠ [] →
+      (∀ x ∈ U, isLetter x = true) → U ≠ [] → unitExp (strip (U.map upper)) = none →
+      parseRegionString (c ++ ':' :: (A ++ '-' :: (I ++ U))) = .error .value) := by
+  refine ⟨refuses_empty_name, ?_, ?_, ?_, ?_, ?_, ?_⟩
+  · intro c body hc hb hh
+    exact parse_error_of_expect hc hb (refuses_missing_hyphen body hh)
+  · intro c ws rest ch hc hb hws hsp hdc
+    exact parse_error_of_expect hc hb (refuses_bad_start ws rest ch hws hsp hdc)
+  · intro c A ws rest a ch hc hb hA hws hsp hdc
+    have hAc := (not_colon_of_numeral hA).1
+    refine parse_error_of_expect hc ?_ (refuses_bad_end A ws rest a ch hA hws hsp hdc)
+    intro hm
+    rcases List.mem_append.mp hm with h | h
+    · exact hAc h
+    · rcases List.mem_cons.mp h with h | h
+      · exact absurd h (by decide)
+      · exact hb h
+  · intro c A B a b hc hA hB hba
+    refine parse_error_of_expect hc ?_ (refuses_reversed A B a b hA hB hba)
+    intro hm
+    rcases List.mem_append.mp hm with h | h
+    · exact (not_colon_of_numeral hA).1 h
+    · rcases List.mem_cons.mp h with h | h
+      · exact absurd h (by decide)
+      · exact (not_colon_of_numeral hB).1 h
+  · intro c I U rest hc hr hI hIne hU hUne hu
+    obtain ⟨hco, hp⟩ := unknown_unit_token I U hI hIne hU hUne hu
+    have e : I ++ U = coordText I none U := by simp [coordText]
+    rw [e]
+    refine parse_error_of_expect hc ?_ (refuses_bad_first_numeral rest hco hp)
+    intro hm
+    rcases List.mem_append.mp hm with h | h
+    · exact (coordText_chars hco _ h).1 rfl
+    · rcases List.mem_cons.mp h with h | h
+      · exact absurd h (by decide)
+      · exact hr h
+  · intro c A I U a hc hA hI hIne hU hUne hu
+    obtain ⟨hco, hp⟩ := unknown_unit_token I U hI hIne hU hUne hu
+    have e : I ++ U = coordText I none U ++ [] := by simp [coordText]
+    rw [e]
+    refine parse_error_of_expect hc ?_ (refuses_bad_second_numeral A [] a hA hco stops_nil hp)
+    intro hm
+    rcases List.mem_append.mp hm with h | h
+    · exact (not_colon_of_numeral hA).1 h
+    · rcases List.mem_cons.mp h with h | h
+      · exact absurd h (by decide)
+      · simp only [List.append_nil] at h; exact (coordText_chars hco _ h).1 rfl
+
+/-- non-vacuity of the refusal classes on concrete strings: `:1-2`, `c:5`, `c:-5-10`, `c:x-2`, `c:10-5`, `c:1x-2` -/
+example : parseRegionString [':', '1', '-', '2'] = .error .value := by rfl
+example : parseRegionString ['c', ':', '5'] = .error .value := by rfl
+example : parseRegionString ['c', ':', '-', '5', '-', '1', '0'] = .error .value := by rfl
+example : parseRegionString ['c', ':', 'x', '-', '2'] = .error .value := by rfl
+example : parseRegionString ['c', ':', '1', '0', '-', '5'] = .error .value := by rfl
+example : parseRegionString ['c', ':', '1', 'x', '-', '2'] = .error .value := by rfl
+
+/-! ## parse_region -/
+
+/-- **parseRegion_refuses**: unknown chromosome; end beyond the chromosome; negative start; end before
+start; no end and no size table -/
+theorem parseRegion_refuses (c : Str) (a b : Option Int) (m : List (Str × Nat)) :
+    (lookup m c = none → checkRegion c a b (some m) = .error .value) ∧
+    (∀ L e, lookup m c = some L → b = some e → e > (L : Int) → checkRegion c a b (some m) = .error .value) ∧
+    (∀ s cs, a = some s → s < 0 → checkRegion c a b cs = .error .value) ∧
+    (∀ e cs, b = some e → e < a.getD 0 → checkRegion c a b cs = .error .value) ∧
+    (b = none → checkRegion c a b none = .error .value) := by
+  refine ⟨?_, ?_, ?_, ?_, ?_⟩
+  · intro h; simp [checkRegion, chromLen, h]
+  · intro L e h hb he
+    subst hb
+    have : beyond (some L) e = true := by simp [beyond, he]
+    simp only [checkRegion, chromLen, h, checkBounds, endOf, this]
+    split
+    · rfl
+    · split <;> rfl
+  · intro s cs ha hs
+    subst ha
+    unfold checkRegion
+    split
+    · rfl
+    · unfold checkBounds
+      split
+      · rfl
+      · simp only [Option.getD_some, hs, if_true]
+        split <;> rfl
+  · intro e cs hb he
+    subst hb
+    unfold checkRegion
+    split
+    · rfl
+    · simp [checkBounds, endOf, he]
+  · intro hb; subst hb; simp [checkRegion, chromLen, checkBounds, endOf]
+
+/-- **parseRegion_sound**: an accepted region keeps the name, fills the defaults (start 0, end = length)
+and lies within the chromosome: `0 ≤ start ≤ end ≤ length` -/
+theorem parseRegion_sound (c c' : Str) (a b : Option Int) (cs : Option (List (Str × Nat))) (s e : Int)
+    (h : checkRegion c a b cs = .ok (c', s, e)) :
+    c' = c ∧ s = a.getD 0 ∧ 0 ≤ s ∧ s ≤ e ∧
+    (∀ m, cs = some m → ∃ L, lookup m c = some L ∧ e ≤ (L : Int) ∧ e = b.getD (L : Int)) ∧
+    (cs = none → b = some e) := by
+  unfold checkRegion at h
+  split at h
+  · simp at h
+  · rename_i clen hclen
+    unfold checkBounds at h
+    split at h
+    · simp at h
+    · rename_i e' he'
+      split at h
+      · simp at h
+      · split at h
+        · simp at h
+        · split at h
+          · simp at h
+          · rename_i h1 h2 h3
+            simp only [Except.ok.injEq, Prod.mk.injEq] at h
+            obtain ⟨rfl, rfl, rfl⟩ := h
+            refine ⟨rfl, rfl, by omega, by omega, ?_, ?_⟩
+            · intro m hm
+              subst hm
+              unfold chromLen at hclen
+              simp only at hclen
+              cases hl : lookup m c with
+              | none => simp [hl] at hclen
+              | some L =>
+                simp only [hl, Except.ok.injEq] at hclen
+                subst hclen
+                refine ⟨L, rfl, ?_, ?_⟩
+                · simp [beyond] at h3; exact h3
+                · cases b with
+                  | none => simp [endOf] at he'; simp [he']
+                  | some b' => simp [endOf] at he'; simp [he']
+            · intro hn
+              subst hn
+              simp only [chromLen, Except.ok.injEq] at hclen
+              subst hclen
+              cases b with
+              | none => simp [endOf] at he'
+              | some b' => simp [endOf] at he'; simp [he']
+
+/-- a region inside a known chromosome is accepted as it stands -/
+theorem parseRegion_accepts (c : Str) (m : List (Str × Nat)) (L : Nat) (s e : Int)
+    (hl : lookup m c = some L) (h0 : 0 ≤ s) (hse : s ≤ e) (heL : e ≤ (L : Int)) :
+    checkRegion c (some s) (some e) (some m) = .ok (c, s, e) := by
+  have h1 : ¬ e < s := by omega
+  have h2 : ¬ s < 0 := by omega
+  have h3 : ¬ e > (L : Int) := by omega
+  simp [checkRegion, chromLen, checkBounds, endOf, beyond, hl, h1, h2, h3]
+
+set_option maxRecDepth 8000 in
+example : parseRegion (.str ['c', ':', '1', 'k', '-']) (some [(['c'], 5000)]) = .ok (['c'], 1000, 5000) := by rfl
+set_option maxRecDepth 8000 in
+example : parseRegion (.str ['c', ':', '1', 'k', '-', '6', 'k']) (some [(['c'], 5000)]) = .error .value := by rfl
+
+/-! ## parse_cooler_uri -/
+
+theorem splitDC_no_sep : ∀ (s : Str), hasDC s = false → splitDC s = [s] := by
+  intro s
+  induction s with
+  | nil => intro _; rfl
+  | cons c t ih =>
+    intro h
+    cases t with
+    | nil => rfl
+    | cons d cs =>
+      simp only [hasDC, Bool.or_eq_false_iff, Bool.and_eq_false_iff, beq_eq_false_iff_ne] at h
+      have hcd : ¬ (c = ':' ∧ d = ':') := by
+        rintro ⟨h1, h2⟩; rcases h.1 with h' | h' <;> contradiction
+      simp [splitDC, hcd, ih h.2]
+
+theorem splitDC_ne_nil : ∀ (s : Str), splitDC s ≠ [] := by
+  intro s
+  induction s with
+  | nil => simp [splitDC]
+  | cons c t ih =>
+    cases t with
+    | nil => simp [splitDC]
+    | cons d cs =>
+      unfold splitDC
+      split
+      · simp
+      · split <;> simp
+
+/-- the first `::` of `f ++ "::" ++ g` is the one written, provided `f:` contains no `::`
+(i.e. `f` contains none and does not end with a colon) -/
+theorem splitDC_app : ∀ (f g : Str), hasDC (f ++ [':']) = false →
+    splitDC (f ++ ':' :: ':' :: g) = f :: splitDC g := by
+  intro f
+  induction f with
+  | nil => intro g _; simp [splitDC]
+  | cons c t ih =>
+    intro g h
+    cases t with
+    | nil =>
+      have hc : c ≠ ':' := by
+        intro e; subst e; simp [hasDC] at h
+      have := splitDC_ne_nil g
+      simp [splitDC, hc]
+    | cons d cs =>
+      simp only [List.cons_append, hasDC, Bool.or_eq_false_iff, Bool.and_eq_false_iff,
+        beq_eq_false_iff_ne] at h
+      have hcd : ¬ (c = ':' ∧ d = ':') := by
+        rintro ⟨h1, h2⟩; rcases h.1 with h' | h' <;> contradiction
+      have ih' := ih g (by simpa using h.2)
+      simp only [List.cons_append] at ih' ⊢
+      simp [splitDC, hcd, ih']
+
+theorem hasDC_slash {g : Str} (h : hasDC g = false) : hasDC ('/' :: g) = false := by
+  cases g with
+  | nil => rfl
+  | cons d cs => simp [hasDC, h]
+
+/-- **uri_no_sep**: without `::` the whole text is the file and the group is the root -/
+theorem uri_no_sep (s : Str) (h : hasDC s = false) : parseCoolerUri s = .ok (s, ['/']) := by
+  simp [parseCoolerUri, splitDC_no_sep s h]
+
+/-- **uri_slash**: `f::g` and `f::/g` denote the same pair `(f, /g)` (for `g` not already starting
+with `/`; if it does, `f::g` gives `(f, g)`) -/
+theorem uri_slash (f g : Str) (hf : hasDC (f ++ [':']) = false) (hg : hasDC g = false) :
+    (g.head? ≠ some '/' →
+      parseCoolerUri (f ++ ':' :: ':' :: g) = .ok (f, '/' :: g) ∧
+      parseCoolerUri (f ++ ':' :: ':' :: '/' :: g) = parseCoolerUri (f ++ ':' :: ':' :: g)) ∧
+    (g.head? = some '/' → parseCoolerUri (f ++ ':' :: ':' :: g) = .ok (f, g)) := by
+  have h1 : parseCoolerUri (f ++ ':' :: ':' :: '/' :: g) = .ok (f, '/' :: g) := by
+    simp [parseCoolerUri, splitDC_app f _ hf, splitDC_no_sep _ (hasDC_slash hg)]
+  constructor
+  · intro hh
+    have h2 : parseCoolerUri (f ++ ':' :: ':' :: g) = .ok (f, '/' :: g) := by
+      simp [parseCoolerUri, splitDC_app f _ hf, splitDC_no_sep _ hg, hh]
+    exact ⟨h2, by rw [h1, h2]⟩
+  · intro hh
+    simp [parseCoolerUri, splitDC_app f _ hf, splitDC_no_sep _ hg, hh]
+
+/-- **uri_two_sep**: two separators are refused -/
+theorem uri_two_sep (a b c : Str) (ha : hasDC (a ++ [':']) = false) (hb : hasDC (b ++ [':']) = false) :
+    parseCoolerUri (a ++ ':' :: ':' :: (b ++ ':' :: ':' :: c)) = .error .value := by
+  unfold parseCoolerUri
+  rw [splitDC_app a _ ha, splitDC_app b _ hb]
+  cases h : splitDC c with
+  | nil => exact absurd h (splitDC_ne_nil c)
+  | cons p ps => rfl
+
+/-- non-vacuity: `a.cool::x/y` and `a.cool::/x/y` -/
+example : parseCoolerUri ['a', ':', ':', 'x', '/', 'y'] = .ok (['a'], ['/', 'x', '/', 'y']) :=
+  ((uri_slash ['a'] ['x', '/', 'y'] (by decide) (by decide)).1 (by decide)).1
+example : parseCoolerUri ['C', ':', '\\', 'a', ':', ':', '/', 'x'] = .ok (['C', ':', '\\', 'a'], ['/', 'x']) := by rfl
+example : parseCoolerUri ['a', ':', ':', 'b', ':', ':', 'c'] = .error .value :=
+  uri_two_sep ['a'] ['b'] ['c'] (by decide) (by decide)
+
 end Cooler.C19
